@@ -55,6 +55,7 @@ struct Explorer {
     std::function<std::string()> sharedState;
     std::function<void(const std::vector<int>&)> atEnd;
     size_t maxSchedules = 0; bool capped = false;
+    std::function<bool()> stop;   // polled now and then: a deadline ends the exploration as "capped" (reported, never called exhaustive)
 
     /** Run one execution following `prefix`, then always the lowest runnable fiber; returns the list of (runnable sets) and choices made. */
     void runOne(const std::vector<int>& prefix, std::vector<int>& choices, std::vector<std::vector<int>>& enabledAt, std::vector<std::string>& keys) {
@@ -98,6 +99,7 @@ struct Explorer {
             schedules++;
             atEnd(choices);
             if (maxSchedules && schedules >= maxSchedules) { capped = true; return; }
+            if (stop && (schedules & 255) == 0 && stop()) { capped = true; return; }
             // branch on every alternative after the prefix; prune (state, alternative) pairs already expanded
             for (size_t i = prefix.size(); i < choices.size(); i++) {
                 if (seen.insert(keys[i]).second) states++;
